@@ -263,7 +263,7 @@ Qed.
 Definition qleafb (t : qterm) : bool := match t with QQt _ _ _ => false | _ => true end.
 
 Lemma word_char_pq : forall c, word_char c = true -> pq c = true.
-Proof. intros c H. unfold word_char, is_ws, cLT, cGT, cDQ, cBS in H. unfold pq, cLT, cGT, cDQ, cLF. lia. Qed.
+Proof. intros c H. unfold word_char, sep_char, cSP, cTAB, cLF, cCR, cLT, cGT, cDQ, cBS in H. unfold pq, cLT, cGT, cDQ, cLF. lia. Qed.
 
 Lemma join_words_pq : forall ws, forallb word_ok ws = true -> forallb pq (join [cSP] ws) = true.
 Proof.
